@@ -577,6 +577,15 @@ func (g *Gen) memComp(elem types.Type) (string, string) {
 		g.entryRefsAxiom(name, true)
 		g.refComps[name] = "mem"
 	}
+	if _, isSlice := elem.Underlying().(*types.Slice); isSlice && g.sortOf(elem) == "Slice" {
+		// memory whose elements are slices ([][]T): the backing arrays they name are references too
+		g.refComps[name] = "slicemem"
+		if key := "entryrefs:" + name; !g.prelSeen[key] {
+			g.prelSeen[key] = true
+			e := g.entry[name]
+			g.assumeGlobal(fmt.Sprintf("(forall ((r Int) (i %s)) (! (and (<= 0 (base (select (select %s r) i))) (< (base (select (select %s r) i)) %s)) :pattern ((select (select %s r) i))))", g.idxSort(), e, e, refBound, e))
+		}
+	}
 	return name, so
 }
 
@@ -607,6 +616,8 @@ func (g *Gen) loopHeadRefsAxiom(name, ver string) {
 		g.assumeGlobal(fmt.Sprintf("(forall ((r Int) (i %s)) (! %s :pattern ((select (select %s r) i))))", g.idxSort(), before(fmt.Sprintf("(select (select %s r) i)", ver)), ver))
 	case "slicefield":
 		g.assumeGlobal(fmt.Sprintf("(forall ((r Int)) (! %s :pattern ((select %s r))))", before(fmt.Sprintf("(base (select %s r))", ver)), ver))
+	case "slicemem":
+		g.assumeGlobal(fmt.Sprintf("(forall ((r Int) (i %s)) (! %s :pattern ((select (select %s r) i))))", g.idxSort(), before(fmt.Sprintf("(base (select (select %s r) i))", ver)), ver))
 	}
 }
 
@@ -1910,6 +1921,8 @@ func (g *Gen) loopHead(b *ssa.BasicBlock, k int, li *loopInfo) {
 						g.assumeAlways(g.beforeHere(fmt.Sprintf("(base %s)", hv)))
 					case "mem":
 						g.assumeGlobal(fmt.Sprintf("(forall ((i %s)) (! %s :pattern ((select %s i))))", g.idxSort(), g.beforeHere(fmt.Sprintf("(select %s i)", hv)), hv))
+					case "slicemem":
+						g.assumeGlobal(fmt.Sprintf("(forall ((i %s)) (! %s :pattern ((select %s i))))", g.idxSort(), g.beforeHere(fmt.Sprintf("(base (select %s i))", hv)), hv))
 					}
 				}
 				g.cur[n] = g.define("H_"+n+"@loop", s, h)
